@@ -1,7 +1,7 @@
 (* C04 -- property theorems only.  Proofs live in C04/Proofs*.v. *)
 From Coq Require Import NArith Arith List Bool.
 From DV Require Import Base.Outcome Base.Bytes Base.Lex Base.Names Base.PName C04.Gen C04.Model
-  C04.ProofsLabel C04.ProofsIter C04.ProofsRepr C04.ProofsData C04.ProofsParsed C04.ProofsEmbed C04.ProofsOrder C04.ProofsCompressed C04.ProofsTyped C04.ProofsSuffix.
+  C04.ProofsLabel C04.ProofsIter C04.ProofsRepr C04.ProofsData C04.ProofsParsed C04.ProofsEmbed C04.ProofsOrder C04.ProofsCompressed C04.ProofsTyped C04.ProofsSuffix C04.ProofsOrdTable.
 Import ListNotations.
 Local Open Scope N_scope.
 
@@ -72,6 +72,18 @@ Print Assumptions C04_cmp_trans_repr.
 Theorem C04_chain_same_as_flat : forall p s b rb, Forall valid_label p -> Forall valid_label s -> valid_abs (p ++ s) -> valid_abs b -> denotes rb (b ++ [[]]) -> let ch := NChain (NFlat (wire_rel p)) (NFlat (wire_abs s)) in let fl := NFlat (wire_abs (p ++ s)) in m_name_eq ch rb = m_name_eq fl rb /\ m_name_cmp ch rb = m_name_cmp fl rb /\ m_name_hash ch = m_name_hash fl /\ m_lc_composed_cmp ch rb = m_lc_composed_cmp fl rb /\ m_composed_cmp ch rb = m_composed_cmp fl rb.
 Proof. exact chain_same_as_flat. Qed.
 Print Assumptions C04_chain_same_as_flat.
+
+Theorem C04_uncertain_abs_eq : forall a b, valid_abs a -> valid_abs b -> m_uncertain_eq (UAbs (wire_abs a)) (UAbs (wire_abs b)) = Ok (name_eqb a b) /\ m_uncertain_eq (UAbs (wire_abs a)) (URel (wire_rel b)) = Ok false /\ m_uncertain_eq (URel (wire_rel a)) (URel (wire_rel b)) = Ok (name_eqb a b).
+Proof. exact uncertain_abs_eq. Qed.
+Print Assumptions C04_uncertain_abs_eq.
+
+Theorem C04_uncertain_eq_hash : forall a b, valid_abs a -> valid_abs b -> (m_uncertain_eq (UAbs (wire_abs a)) (UAbs (wire_abs b)) = Ok true -> m_uncertain_hash (UAbs (wire_abs a)) = m_uncertain_hash (UAbs (wire_abs b))) /\ (m_uncertain_eq (URel (wire_rel a)) (URel (wire_rel b)) = Ok true -> m_uncertain_hash (URel (wire_rel a)) = m_uncertain_hash (URel (wire_rel b))).
+Proof. exact uncertain_eq_hash. Qed.
+Print Assumptions C04_uncertain_eq_hash.
+
+Theorem C04_chain_fused_same : forall a b la lb, yields a la -> yields b lb -> fused_yields (Some a) b (la ++ lb) /\ yields (IChain a b) (la ++ lb).
+Proof. exact chain_fused_same. Qed.
+Print Assumptions C04_chain_fused_same.
 
 Theorem C04_denotes_parsed : forall m p ls, plabels m (pn_pos p) (pn_len p) ls -> flat_ok m p ls -> denotes (NParsed m p) ls.
 Proof. exact denotes_parsed. Qed.
@@ -248,6 +260,26 @@ Print Assumptions C04_rd_eq_sym.
 Theorem C04_rd_canonical_bytewise : forall code r a b, rd_lookup rd_table code = Some r -> map fv_kind a = row_kinds r -> map fv_kind b = row_kinds r -> Forall fv_ok a -> Forall fv_ok b -> rd_canonical_cmp (row_canonical r) a b = Ok (lex_cmp (rd_enc a) (rd_enc b)).
 Proof. exact rd_canonical_bytewise. Qed.
 Print Assumptions C04_rd_canonical_bytewise.
+
+Theorem C04_rd_extra_hash_ok : forallb (fun r => nlist_eqb (snd (snd r)) (iota (N.to_nat (fst (snd r))))) rd_extra_hash = true.
+Proof. exact rd_extra_hash_ok. Qed.
+Print Assumptions C04_rd_extra_hash_ok.
+
+Theorem C04_rdh_eq_hash : forall code a b, all2 fv_eq a b = true -> c04_rdh code a = c04_rdh code b.
+Proof. exact rdh_eq_hash. Qed.
+Print Assumptions C04_rdh_eq_hash.
+
+Theorem C04_rd_ord_table_ok : nlist_eqb (map fst rd_ord_table) (map fst rd_table) = true /\ forallb (fun cr => match rd_lookup rd_table (fst cr) with | Some r => orow_ok (row_kinds r) (snd cr) | None => false end) rd_ord_table = true.
+Proof. exact rd_ord_table_ok. Qed.
+Print Assumptions C04_rd_ord_table_ok.
+
+Theorem C04_rd_partial_is_cmp : forall code a b, c04_rd_partial code a b = c04_rd_cmp code a b.
+Proof. exact rd_partial_is_cmp. Qed.
+Print Assumptions C04_rd_partial_is_cmp.
+
+Theorem C04_rd_cmp_eq_iff : forall code row a b, rd_lookup rd_table code = Some row -> map fv_kind a = row_kinds row -> map fv_kind b = row_kinds row -> Forall fv_ok a -> Forall fv_ok b -> exists c, c04_rd_cmp code a b = Some c /\ c04_rd_partial code a b = Some c /\ (c = Eq <-> rd_eq (row_eq row) a b = true).
+Proof. exact rd_cmp_eq_iff. Qed.
+Print Assumptions C04_rd_cmp_eq_iff.
 
 Theorem C04_nsec_canonical_bytewise : forall vs n1 t1 n2 t2, valid_abs n1 -> valid_abs n2 -> ~ nsec_self_compare vs t1 t2 -> nsec_canonical_cmp_gen vs n1 t1 n2 t2 = Ok (lex_cmp (nsec_enc n1 t1) (nsec_enc n2 t2)).
 Proof. exact nsec_canonical_bytewise. Qed.
